@@ -214,6 +214,13 @@ def run_on(fb, chk, tag=""):
         ws = [w for w in field_writes(fs[0]) if (w["adt"] or "").endswith("BackendInternal")]
         if len(ws) == 1:
             proxy_roles[role] = ws[0]["field"]
+            from vlint.terms import Sym as _Sym
+            gv = _Sym(fs[0], fb).rvalue(ws[0]["rv"])
+            while gv[0] in ("ref", "deref"):
+                gv = gv[1]
+            chk.check(gv[0] == "param", "G3", tag + "setter:" + setter, "flag <- the parameter",
+                      "Backend::%s stores `%s`, not the value it was given (the flag must follow the negotiated state in both directions)"
+                      % (setter, show(gv)[:60]), fs[0].loc(ws[0]["line"]))
         else:
             chk.anchor_missing("G3", tag + "field written by Backend::" + setter)
     for code, row in sorted(wire.BACKEND_TABLE.items()):
@@ -339,7 +346,11 @@ def run_on(fb, chk, tag=""):
                             _, fld = field_of(x)
                             if fld == fe_roles.get("offered_virtio"):
                                 masked = True
-                good = masked
+                # ... and it REPLACES the previous record (a renegotiation can withdraw a feature): the stored value does not
+                # read the field it is stored into
+                selfref = any(x[0] == "field" and x[2] == w["field"] for x in subterms(rv)) or \
+                    any(x[0] == "bin" and x[1] == "BitOr" for x in subterms(rv))
+                good = masked and not selfref
                 detail = show(rv)[:100]
             if good and role == "acked_proto":
                 # the frontend's record is exactly the set it put on the wire (the request body is features.bits()):
